@@ -112,7 +112,7 @@ def check_one(case, ctx, deep):
 
 
 def plan(tier, seed):
-    return tablecheck.plan(tier, seed, hyp_quick=(12, 150), hyp_thorough=(16, 1500), wide=True)
+    return tablecheck.plan(tier, seed, hyp_quick=(12, 150), hyp_thorough=(16, 1500), wide=True, tall=True)
 
 
 def run(task, ctx):
